@@ -21,13 +21,12 @@
    reachable state: Properties/C13.v c13_wf_new / c13_wf_step); without it the
    MODEL's loop can run out of its own fuel (see the remark at the theorem).
 
-   get_implicit_users_for_permission: FINDING.  The source calls
-   `self.enforce(req)` and a panic inside it (e.g. `unsupported effect`,
-   effector.rs) unwinds through the helper; the model's `implicit_users` counts
-   a panicking candidate as "not permitted" (`| _ => false`) and answers a
-   name set.  genq_get_implicit_users_for_permission_ok states exactly when the
-   two agree (no candidate panics) and that otherwise the source panics;
-   get_implicit_users_full_refuted is a concrete state where they differ.
+   get_implicit_users_for_permission: the source calls `self.enforce(req)`; an
+   Err is ignored (`if let Ok(r)`), a panic inside it (e.g. `unsupported
+   effect`, effector.rs) unwinds through the helper.  The model's
+   `implicit_users` answers None (AnsPanic) exactly then (it used to count a
+   panicking candidate as "not permitted": the finding of this part, repaired in
+   Model/Engine.v); bad1_both_panic is the state on which they used to differ.
 
    has_permission_for_user has no query of its own: it is specified as
    QHasPolicy "p" "p" (user :: permission).
@@ -433,25 +432,20 @@ Proof.
   destruct (enforce ptab s (map VStr (x :: perm))) as [[|]|e|]; intros H; try discriminate H. reflexivity.
 Qed.
 
-(* for ALL states: when the listings panic both do; otherwise, if enforce
-   panics on some candidate the SOURCE panics (and the model does not: the
-   finding), else the source returns the model's set, without duplicates *)
+(* for ALL states: the source panics exactly when the model answers None (a
+   listing panics, or enforce panics on some candidate); otherwise it returns
+   the model's set, without duplicates *)
 Theorem genq_get_implicit_users_for_permission_spec : forall ptab ord s perm, q_ord_ok ord ->
-  match iu_candidates s with
-  | None => genq_get_implicit_users_for_permission ptab ord s perm = None /\
-            implicit_users ptab s perm = None
-  | Some cands =>
-    if existsb (enf_panics ptab s perm) cands
-    then genq_get_implicit_users_for_permission ptab ord s perm = None
-    else exists l l', implicit_users ptab s perm = Some l /\
-                      genq_get_implicit_users_for_permission ptab ord s perm = Some l' /\
-                      NoDup l' /\ forall y, In y l' <-> In y l
+  match implicit_users ptab s perm with
+  | None => genq_get_implicit_users_for_permission ptab ord s perm = None
+  | Some l => exists l', genq_get_implicit_users_for_permission ptab ord s perm = Some l' /\
+                         NoDup l' /\ forall y, In y l' <-> In y l
   end.
 Proof.
-  intros ptab ord s perm Hord. unfold genq_get_implicit_users_for_permission, iu_candidates, implicit_users.
+  intros ptab ord s perm Hord. unfold genq_get_implicit_users_for_permission, implicit_users.
   rewrite genq_get_all_subjects_eq, genq_get_all_roles_eq.
-  destruct (m_values (e_model s) s_p s_p 0) as [subjects|]; [|split; reflexivity].
-  destruct (m_values (e_model s) s_g s_g 1) as [roles|]; [|split; reflexivity].
+  destruct (m_values (e_model s) s_p s_p 0) as [subjects|]; [|reflexivity].
+  destruct (m_values (e_model s) s_g s_g 1) as [roles|]; [|reflexivity].
   cbv beta iota zeta. q_unfold. unfold rm_get_users, handle_get_users.
   loop_foldopt (iu_check ptab s perm) uf_step
                ltac:(intros x res; cbv beta iota zeta; unfold iu_check, uf_step, rs_push;
@@ -468,7 +462,10 @@ Proof.
         apply (q_ord_In _ _ _ Hord), Hx.
     - intros x. f_equal. unfold rs_vec_contains, memb. apply existsb_same; [reflexivity|].
       intros y. unfold rs_eq. apply teqb_sym. }
-  destruct (existsb (enf_panics ptab s perm) cands) eqn:Epan.
+  match goal with
+  | |- context [if ?c then None else _] => change c with (existsb (enf_panics ptab s perm) cands)
+  end.
+  destruct (existsb (enf_panics ptab s perm) cands) eqn:Epan; cbv beta iota.
   - apply existsb_exists in Epan. destruct Epan as [x [Hx Hp]].
     rewrite (map_opt_none _ users x (proj2 (Hmem x) Hx) (iu_check_panic _ _ _ _ Hp)). reflexivity.
   - assert (Hnp : forall x, In x users -> enf_panics ptab s perm x = false).
@@ -480,8 +477,8 @@ Proof.
       by (intros x Hx; apply iu_check_ok, Hnp, Hx).
     cbv beta iota.
     destruct (uf_fold (map (fun x => (x, enf_grants ptab s perm x)) users) [] (NoDup_nil _)) as [Hnd Hin].
-    eexists; eexists. split; [reflexivity|]. split; [reflexivity|]. split; [exact Hnd|].
-    intros y. rewrite Hin, dedup_In, filter_In, in_map_iff. fold cands. cbn [In]. split.
+    eexists. split; [reflexivity|]. split; [exact Hnd|].
+    intros y. rewrite Hin, dedup_In, filter_In, in_map_iff. cbn [In]. split.
     + intros [[]|[x [E Hx]]]. injection E as Ex Hg. subst x. split; [|tauto].
       split; [apply Hmem, Hx|]. unfold enf_grants in Hg. exact Hg.
     + intros [[Hy Hg] _]. right. exists y. split; [|apply Hmem, Hy].
@@ -528,36 +525,22 @@ Proof.
   apply (opt_perm_answer _ (implicit_perms s u d)), genq_get_implicit_permissions_for_user_spec; assumption.
 Qed.
 
-(* get_implicit_users_for_permission: the full statement is FALSE of the model *)
-Definition genq_get_implicit_users_for_permission_full : Prop :=
-  forall ptab ord s perm, q_ord_ok ord ->
-  answer_equiv (ans_nameset (genq_get_implicit_users_for_permission ptab ord s perm))
-               (ask ptab s (QImplicitUsers perm)).
-
-(* what is missing in the partial statement: the candidates on which enforce
-   panics (there the source panics and the model answers a set) *)
-Definition no_candidate_panics (ptab : text -> option expr) (s : estate) (perm : rule) : Prop :=
-  match iu_candidates s with
-  | Some cands => existsb (enf_panics ptab s perm) cands = false
-  | None => True
-  end.
-
-Theorem genq_get_implicit_users_for_permission_partial : forall ptab ord s perm,
-  q_ord_ok ord -> no_candidate_panics ptab s perm ->
+Theorem genq_get_implicit_users_for_permission_ok : forall ptab ord s perm, q_ord_ok ord ->
   answer_equiv (ans_nameset (genq_get_implicit_users_for_permission ptab ord s perm))
                (ask ptab s (QImplicitUsers perm)).
 Proof.
-  intros ptab ord s perm Hord Hnp. unfold no_candidate_panics in Hnp.
+  intros ptab ord s perm Hord.
   pose proof (genq_get_implicit_users_for_permission_spec ptab ord s perm Hord) as H.
   cbv delta [ask]. cbv beta iota.
-  destruct (iu_candidates s) as [cands|].
-  - rewrite Hnp in H. destruct H as (l & l' & Hm & Hg & _ & Hin). rewrite Hm, Hg. exact Hin.
-  - destruct H as [Hg Hm]. rewrite Hm, Hg. reflexivity.
+  destruct (implicit_users ptab s perm) as [l|].
+  - destruct H as (l' & Hg & _ & Hin). rewrite Hg. exact Hin.
+  - rewrite H. reflexivity.
 Qed.
 
-(* the witness: the casbin RBAC example model with an effect expression that
-   DefaultEffector::new_stream does not know (`panic!("unsupported effect")`),
-   one stored permission; alice is a candidate, enforce panics on her *)
+(* the state of the finding: the casbin RBAC example model with an effect
+   expression that DefaultEffector::new_stream does not know
+   (`panic!("unsupported effect")`), one stored permission; alice is a candidate,
+   enforce panics on her: the source panics, and so does the (repaired) model *)
 Definition bad_model : model :=
   [ (s_r, [(s_r, mk_ast (T "sub, obj, act") r_toks3)]);
     (s_p, [(s_p, mk_ast (T "sub, obj, act") p_toks3)]);
@@ -569,18 +552,12 @@ Definition bad1 : estate :=
   run_ops (fst (new_enforcer bad_def ANull false))
           [ORbac (RAddPermission (T "alice") [T "data"; T "read"])].
 
-Example bad1_disagrees :
+Example bad1_both_panic :
   iu_candidates bad1 = Some [T "alice"] /\
   enforce ptab0 bad1 (map VStr [T "alice"; T "data"; T "read"]) = Panic /\
-  ask ptab0 bad1 (QImplicitUsers [T "data"; T "read"]) = AnsNameSet [] /\
+  ask ptab0 bad1 (QImplicitUsers [T "data"; T "read"]) = AnsPanic /\
   genq_get_implicit_users_for_permission ptab0 (fun l => l) bad1 [T "data"; T "read"] = None.
 Proof. vm_compute. repeat split; reflexivity. Qed.
-
-Theorem get_implicit_users_full_refuted : ~ genq_get_implicit_users_for_permission_full.
-Proof.
-  intros H. specialize (H ptab0 (fun l => l) bad1 [T "data"; T "read"] q_ord_ok_id).
-  destruct bad1_disagrees as (_ & _ & Ha & Hg). rewrite Ha, Hg in H. discriminate H.
-Qed.
 
 (* ------------------------------------------------------------------ *)
 (* Part 9: the hypotheses are satisfiable, every function computes     *)
@@ -590,8 +567,6 @@ Example ex_wf : wf (f_rm (e_fs ex1)).
 Proof. exact ex1_wf. Qed.
 Example ex_fuel : S (S (graph_size (f_rm (e_fs ex1)) None)) <= 6.
 Proof. apply Nat.leb_le. vm_compute. reflexivity. Qed.
-Example ex_no_panics : no_candidate_panics ptab0 ex1 [T "data"; T "read"].
-Proof. vm_compute. reflexivity. Qed.
 
 (* ex1 (Proofs/C13P.v): alice -> r1, r2 -> r3 -> r1 and four permissions *)
 Example ex_mgmt :
@@ -644,4 +619,4 @@ Print Assumptions genq_get_implicit_roles_for_user_spec.
 Print Assumptions genq_get_implicit_roles_for_user_closure.
 Print Assumptions genq_get_implicit_permissions_for_user_spec.
 Print Assumptions genq_get_implicit_users_for_permission_spec.
-Print Assumptions get_implicit_users_full_refuted.
+Print Assumptions genq_get_implicit_users_for_permission_ok.
